@@ -279,6 +279,17 @@ def run(ctx):
                         "the writes of one %s() call happen under different lock acquisitions: another record can interleave" % f.name, f)
             elif gens:
                 ctx.ok("R09.1", f, "one-critical-section:%s" % stream, "all stream uses under the same lock object", f)
+            # one lock OBJECT per record is not yet one critical section: a lock declared inside a loop is released and re-acquired on every
+            # iteration (a record written in slices) - another thread's record fits between two iterations
+            from sa import cfg as _cfg
+            in_loop = set()
+            for _h, _body in _cfg.loop_blocks(f):
+                in_loop |= set(_body)
+            for bid, i, e in f.all_elems():
+                if lock_decl(e) and bid in in_loop and f.name == "sink":
+                    ctx.bad("R09.1", f, "split-critical-section:%s:lock-inside-loop" % stream,
+                            "the scoped lock of %s() is declared inside a loop (line %s): the mutex is released and taken again on every iteration, the pieces of one record are written under "
+                            "different acquisitions and another thread's record can land between them" % (f.name, e.get("ln")), (f, e.get("ln")))
             # R09.2 for each lock declared in this method
             for bid, i, e in f.all_elems():
                 ld = lock_decl(e)
